@@ -408,6 +408,18 @@ pub fn generate(thorough: bool, seed: u64, out: &mut dyn Write) {
             writeln!(out, "{} {} | {}", if (round + kind) % 4 == 3 { "wbytes" } else { "edit" }, base, toks.join(" ")).unwrap();
         }
     }
+    // tables whose BYTE size crosses 2^16, written and edited (the header recomputation sums
+    // count x row size per table)
+    for &(kind, n) in WIDE_BYTES_CROSS {
+        if thorough || kind % 2 == 1 || kind == 6 {
+            let d = rng.below(2) as usize;
+            let mut m = gen_wide_opts(&mut rng, kind, Some(n + d), true);
+            let base = m.tokens();
+            writeln!(out, "write {}", base).unwrap();
+            let toks = gen_history_keep(&mut rng, &mut m);
+            writeln!(out, "edit {} | {}", base, toks.join(" ")).unwrap();
+        }
+    }
 }
 
 // ---------------------------------------------------------------------------------------------
